@@ -29,7 +29,7 @@ ASSUMPTIONS = [
     "reference wire walker and name decoder; RDATA decoded with dns.rdata.from_wire (C02)",
     "maximality of the kept prefix is not demanded; TooBig under prefer_truncation is legitimate only when header+question-less OPT/padding/TSIG alone exceed the limit",
 ]
-REQUIRED = ["mon.first_rendering_with_tsig_placeholder", "mon.bulky_opt_record", "mon.direct_renderer", "mon.padding_option_already_present", "mon.render_under_limit", "mon.prefix_check", "mon.tc_rule", "mon.padding_multiple", "mon.toobig_legitimacy", "mon.truncated_outcomes"]
+REQUIRED = ["mon.beyond_64k", "mon.direct_renderer_reservation_rounds", "mon.first_rendering_with_tsig_placeholder", "mon.bulky_opt_record", "mon.direct_renderer", "mon.padding_option_already_present", "mon.render_under_limit", "mon.prefix_check", "mon.tc_rule", "mon.padding_multiple", "mon.toobig_legitimacy", "mon.truncated_outcomes"]
 BUDGET = {"quick": 32.0, "thorough": 480.0}
 
 
@@ -98,7 +98,22 @@ def direct_renderer_drill(ctx, rng, m, L):
     r = dns.renderer.Renderer(id=m.id, flags=int(m.flags), max_size=L, origin=m.origin)
     kept = [0, 0, 0, 0]
     refused = 0
+    # space set aside and given back, once per section and sometimes twice over: reserve()/release_reserved() as the class
+    # documents them.  Whatever the rounds, the limit of the renderer is the one it was created with.
+    reserving = rng.random() < 0.5 and L >= 64
+
+    def round_of_reservation():
+        if not reserving:
+            return
+        r.reserve(rng.choice((0, 1, 11, min(40, r.max_size))))
+        if rng.random() < 0.5:
+            r.reserve(rng.choice((0, 7, min(20, r.max_size))))
+        r.release_reserved()
+        if rng.random() < 0.3:
+            r.release_reserved()  # giving back twice gives back nothing more
+
     try:
+        round_of_reservation()
         for q in m.question:
             try:
                 r.add_question(q.name, q.rdtype, q.rdclass)
@@ -106,6 +121,7 @@ def direct_renderer_drill(ctx, rng, m, L):
             except dns.exception.TooBig:
                 refused += 1
         for si, sec in ((1, m.answer), (2, m.authority), (3, m.additional)):
+            round_of_reservation()
             for rr in sec:
                 if getattr(rr, "deleting", None) is not None or len(rr) == 0:
                     continue
@@ -122,7 +138,11 @@ def direct_renderer_drill(ctx, rng, m, L):
     except Exception as e:
         ctx.violation("direct-renderer-raised:" + core.exc_sig(e), repr(e), case)
         return
-    ctx.seen(("direct", min(refused, 3), L < 600))
+    ctx.seen(("direct", min(refused, 3), L < 600, reserving))
+    if reserving:
+        ctx.count("mon.direct_renderer_reservation_rounds")
+        if r.max_size != L or r.reserved != 0:
+            ctx.violation("direct-renderer-limit-changed-by-reserve-release-rounds", f"created with max_size {L}; after the rounds max_size {r.max_size}, reserved {r.reserved}", case)
     if len(w) > L:
         ctx.violation("direct-renderer-exceeds-limit", f"{len(w)} > {L}", case)
     try:
@@ -133,6 +153,48 @@ def direct_renderer_drill(ctx, rng, m, L):
     present = (len(walk["questions"]),) + tuple(len(x) for x in walk["records"])
     if tuple(walk["counts"]) != present or walk["end"] != len(w) or tuple(kept) != present:
         ctx.violation("direct-renderer-header-counts-differ-from-records-present", f"L={L} refused={refused}: header {walk['counts']} records kept {kept} walker end {walk['end']} len {len(w)}", dict(case, wire=w))
+
+
+def beyond_64k_drill(ctx, rng):
+    """more than 64 KiB of records and a caller-supplied limit at or above 65536: a DNS message is at most 65535 octets,
+    padded or not, signed or not, whatever limit was asked for"""
+    ctx.count("evaluations")
+    ctx.count("mon.beyond_64k")
+    q = dns.message.make_query("big.example.", "TXT")
+    m = dns.message.make_response(q)
+    n = rng.choice((330, 400))
+    size = rng.choice((199, 200, 201, 202, 203))
+    for i in range(n):
+        m.find_rrset(m.answer, dns.name.from_text(f"r{i}.big.example."), 1, 16, create=True).add(dns.rdata.from_text("IN", "TXT", '"' + "x" * size + '"'), 60)
+    pad = rng.choice((0, 128, 128, 468, 16))
+    if pad:
+        m.use_edns(0, 0, 1232, pad=pad)
+    key = None
+    if rng.random() < 0.4:
+        key = dns.tsig.Key("k.example.", b"0123456789abcdef")
+        m.use_tsig(key)
+    for L in (65536, 70000, rng.choice((65537, 65535 + pad if pad else 66000, 100000))):
+        for prefer in (True, False):
+            case = {"kind": "beyond-64k", "L": L, "prefer": prefer, "pad": pad, "tsig": key is not None, "records": n, "string": size}
+            try:
+                w = m.to_wire(max_size=L, prefer_truncation=prefer, want_shuffle=False)
+            except dns.exception.TooBig:
+                ctx.seen(("beyond-64k", "toobig", prefer, bool(pad)))
+                continue
+            except Exception as e:
+                ctx.violation("render-foreign:" + core.exc_sig(e), f"L={L} prefer={prefer}: {e!r}", case)
+                return
+            ctx.seen(("beyond-64k", "ok", prefer, bool(pad), len(w) > 65000))
+            if len(w) > 65535:
+                ctx.violation(f"rendered-message-exceeds-65535-octets:{'pad' if pad else 'nopad'}", f"len {len(w)} with max_size={L}", case)
+                return
+            try:
+                m.to_wire(max_size=L, prefer_truncation=prefer, want_shuffle=False, prepend_length=True)
+            except dns.exception.TooBig:
+                pass
+            except Exception as e:
+                ctx.violation("render-foreign:prepend_length:" + core.exc_sig(e), f"L={L}: {e!r}", case)
+                return
 
 
 def check_limit(ctx, spy, m, info, key, L, prefer, full_len, min_len, want_sets, collide):
@@ -255,6 +317,8 @@ def run(spec, ctx):
     rng = ctx.rng
     spy = RendererSpy().install()
     try:
+        for _ in range(2):
+            beyond_64k_drill(ctx, rng)
         for i in range(spec["n"]):
             if ctx.expired(1.0):
                 break
